@@ -22,6 +22,7 @@ PROPS['C19'] = dict(
                  'pedal-held notes must end; GM off may leave any of the three modes',
                  'master volume: TL rewrite inside the call is required for key-down notes; notes held only by the pedal are three-valued'],
     stages=[
+        dict(name='file', variant='asan', harness='c19_sysex.cpp', quick=1600, thorough=16000, budget=60),
         dict(name='sweep', variant='asan', harness='c19_sysex.cpp', quick=8192, thorough=32768, budget=60),
         dict(name='memcheck', variant='plain-d', harness='c19_sysex.cpp', quick=512, thorough=8192, budget=150, wall=2400, **{'as': 'sweep'},
              wrapper=['valgrind', '-q', '--error-exitcode=79', '--exit-on-first-error=yes', '--track-origins=no', '--leak-check=no']),
